@@ -49,6 +49,22 @@ def is_enzyme(sub) -> bool:
     return sub._type == ENZYME
 
 
+def density_of(sub) -> float:
+    """Density used by the reference: a liquid's own; for solids and enzymes that carry the library's default, the
+    default *as configured in the file* (a substance built with an explicit other density keeps it)."""
+    if sub._type == LIQUID:
+        return sub.density
+    c = cfg()
+    lib = c.raw
+    if sub._type == ENZYME:
+        return c.enzyme_density if _same(sub.density, lib.default_enzyme_density) else sub.density
+    return c.solid_density if _same(sub.density, lib.default_solid_density) else sub.density
+
+
+def _same(a, b):
+    return a == b or (a != a and b != b)
+
+
 def per(sub, base: str) -> float:
     """Size of one canonical unit of `sub` (1 mol for solids/liquids, 1 U for enzymes) in `base`.
 
@@ -63,7 +79,7 @@ def per(sub, base: str) -> float:
         if base == 'g':
             return 1.0 / sub.specific_activity
         if base == 'L':
-            d = sub.density
+            d = density_of(sub)
             return 0.0 if math.isinf(d) else 1.0 / d / 1000.0
     else:
         if base == 'mol':
@@ -73,7 +89,7 @@ def per(sub, base: str) -> float:
         if base == 'g':
             return float(sub.mol_weight)
         if base == 'L':
-            d = sub.density
+            d = density_of(sub)
             return 0.0 if math.isinf(d) else sub.mol_weight / d / 1000.0
     raise Reject(f'bad base {base!r}')
 
@@ -98,11 +114,31 @@ def convert(sub, amount: float, from_unit: str, to_unit: str) -> float:
 # --------------------------------------------------------------------------------------------------
 # configuration in effect (read from the real module so that C18 can vary it)
 
+class _FileConfig:
+    """The configuration as the *file* states it (read here with yaml, independently of the library's loader): the
+    workers always run with PYPLATE_CONFIG pointing at the file the driver wrote."""
+    def __init__(self, lib):
+        import os
+        d = os.environ.get('PYPLATE_CONFIG')
+        y = None
+        if d and os.path.isfile(os.path.join(d, 'pyplate.yaml')):
+            import yaml
+            with open(os.path.join(d, 'pyplate.yaml')) as f:
+                y = yaml.safe_load(f)
+        self.from_file = y is not None
+        for k in ('internal_precision', 'moles_storage_unit', 'volume_storage_unit', 'moles_display_unit',
+                  'volume_display_unit', 'concentration_display_unit', 'default_weight_volume_units', 'precisions'):
+            setattr(self, k, y[k] if y is not None else getattr(lib, k))
+        for k in ('default_solid_density', 'default_enzyme_density'):
+            setattr(self, k, float(y[k]) if y is not None else getattr(lib, k))
+
+
 class Cfg:
     def __init__(self):
         import pyplate.pyplate as pp
-        c = pp.config
-        self.raw = c
+        self.raw = pp.config
+        c = _FileConfig(pp.config)
+        self.from_file = c.from_file
         self.internal_precision = c.internal_precision
         self.q = 10.0 ** (-c.internal_precision)
         self.mol_unit = c.moles_storage_unit
@@ -112,7 +148,10 @@ class Cfg:
         self.precisions = dict(c.precisions)
         self.moles_display_unit = c.moles_display_unit
         self.volume_display_unit = c.volume_display_unit
+        self.concentration_display_unit = c.concentration_display_unit
         self.wv_units = c.default_weight_volume_units
+        self.solid_density = c.default_solid_density
+        self.enzyme_density = c.default_enzyme_density
 
     def precision(self, unit: str) -> int:
         return self.precisions[unit] if unit in self.precisions else self.precisions['default']
